@@ -82,6 +82,17 @@ def render(c):
         inner = {'none': '', 'b=1': ' where b = 1', 'limit1': ' order by a limit 1'}[c['inner']]
         return 'select * from (select * from int1.t1%s) as s %s int2.t2 on s.a = t2.a%s' % (inner, KIND[c['kind']],
                                                                                          where(c['where']))
+    if sh == 'implicit':
+        w = {'none': '', 't1a=t2a': 't1.a = t2.a', 't1a=t2a&t2c=1': 't1.a = t2.a and t2.c = 1', 't1a=t2a|t2c=1': 't1.a = t2.a or t2.c = 1',
+             'not-t1a=t2a': 'not t1.a = t2.a', 't1b=1&t1a=t2a': 't1.b = 1 and t1.a = t2.a', 't1b=1': 't1.b = 1',
+             't2c=1|t1b=1': 't2.c = 1 or t1.b = 1', 't1a<t2a': 't1.a < t2.a', 't2a=t1a&not-t2c=1': 't2.a = t1.a and not t2.c = 1',
+             '(t1a=t2a|t1b=1)&t2c=1': '(t1.a = t2.a or t1.b = 1) and t2.c = 1', 't1a=t2a&t1b=t2c': 't1.a = t2.a and t1.b = t2.c',
+             't1a=t2c|t1b=t2a': 't1.a = t2.c or t1.b = t2.a'}[c['where']]
+        tg = {'star': '*', 'cols': 't1.a, t2.c', 'count': 'count(*)'}[c['tgt']]
+        if c['n'] == 3:
+            w = (w + ' and ' if w else '') + 't3.b = t1.b'
+            return 'select %s from int1.t1, int2.t2, int1.t3 where %s' % (tg, w)
+        return 'select %s from int1.t1, int2.t2%s' % (tg, ' where ' + w if w else '')
     if sh == 'scalar':
         return 'select * from int1.t1 where a %s (select %s(a) from int2.t2)' % (c['cmp'], c['f'])
     if sh == 'single':
